@@ -44,6 +44,25 @@ def _only_nearest_even(rm):
         raise BackendError(f"the concrete backend does not implement rounding mode {rm}")
 
 
+def _int_to_float(i, sort):
+    """
+    The integer as a Python float from which the value of sort `sort` is obtained with a single rounding. float() rounds
+    to 53 bits; a single-precision value is rounded again to 24 bits later on, and rounding twice to nearest can be off
+    by one unit (2**62 + 2**38 + 1). Rounding to odd at 53 bits first makes the second rounding the only one that counts.
+    """
+    if sort == FSORT_FLOAT:
+        magnitude = abs(i)
+        excess = magnitude.bit_length() - 53
+        if excess > 0:
+            sticky = (magnitude & ((1 << excess) - 1)) != 0
+            magnitude = ((magnitude >> excess) | sticky) << excess
+        i = -magnitude if i < 0 else magnitude
+    try:
+        return float(i)
+    except OverflowError:
+        return math.copysign(float("inf"), i)
+
+
 def _divide_by_zero(dividend, zero):
     """
     IEEE-754 division by a zero (which Python refuses): 0/0 and NaN/0 are NaN, anything else is an infinity whose sign
@@ -232,7 +251,7 @@ def fpToFP(a1, a2, a3=None):
         return FPV(a2.value, a3)
     if isinstance(a1, RM) and isinstance(a2, BVV) and isinstance(a3, FSort):
         _only_nearest_even(a1)
-        return FPV(float(a2.signed), a3)
+        return FPV(_int_to_float(a2.signed, a3), a3)
     raise ClaripyOperationError("unknown types passed to fpToFP")
 
 
@@ -243,7 +262,7 @@ def fpToFPUnsigned(_rm, thing, sort):
     """
     # thing is a BVV
     _only_nearest_even(_rm)
-    return FPV(float(thing.value), sort)
+    return FPV(_int_to_float(thing.value, sort), sort)
 
 
 def fpToIEEEBV(fpv):
